@@ -309,6 +309,15 @@ def oracle(cases, impl):
                 hist["op:" + o[:1]] = hist.get("op:" + o[:1], 0) + 1
             hist["segments:%d" % min(len(cur["files"]), 6)] = hist.get("segments:%d" % min(len(cur["files"]), 6), 0) + 1
             continue
+        if kind == "K":
+            # the concurrent leg: Save in one goroutine, WAL.Sync() in another (node/raft.go does both), then a
+            # clean Close: the reopen must return the last hard state and the files must hold every record
+            hist["K"] = hist.get("K", 0) + 1
+            if out != c[1]:
+                fails.append(dict(name="closelost-" + cid, case=dict(cases_tsv=["\t".join([cid] + c)], impl=out),
+                                  what="Save racing with WAL.Sync(), then a clean Close: the reopen gave [%s], "
+                                       "every saved record present would be [%s]" % (out, c[1])))
+            continue
         if kind in ("D", "U"):
             hist[kind] = hist.get(kind, 0) + 1
             if out == "panic":
@@ -428,14 +437,21 @@ def oracle(cases, impl):
 
 # ----------------------------------------------------------------------------- running both sides
 
+# sub-runs judged by the direct oracle only (the extracted model works on lists of binary numbers: minutes per
+# history with a 1-2 MB entry)
+ORACLE_ONLY = ("mega",)
+
+
 def run_both(ctx, sub, args):
-    d = os.path.join(ctx.run_dir, sub)
+    d = os.path.join(ctx.run_dir, "%s.%d" % (sub, os.getpid()))     # concurrent invocations must not share it
     shutil.rmtree(d, ignore_errors=True)
     os.makedirs(d)
     cmd = "%s %s -out %s" % (os.path.join(vlib.BIN, BINARY), args, d)
     rc, out, dt = sh(cmd, cwd=d, timeout=3000)
     if rc != 0:
         return None, out
+    if sub in ORACLE_ONLY:
+        return d, ""
     # the extracted model uses the system stack for its (non tail recursive) list functions: 300 KB entries
     # need more than the default 8 MB
     rc2, out2, dt2 = sh("ulimit -s 4000000 2>/dev/null || ulimit -s unlimited 2>/dev/null || true; %s < cases.tsv > model.out"
@@ -445,10 +461,13 @@ def run_both(ctx, sub, args):
     return d, ""
 
 
-def judge(d):
-    mism, cnt = vlib.diff_outputs(os.path.join(d, "impl.out"), os.path.join(d, "model.out"))
+def judge(d, diff=True):
     cases = parse_cases(os.path.join(d, "cases.tsv"))
     impl, _ = vlib.read_out(os.path.join(d, "impl.out"))
+    if diff:
+        mism, cnt = vlib.diff_outputs(os.path.join(d, "impl.out"), os.path.join(d, "model.out"))
+    else:
+        mism, cnt = [], 0
     fails, hist, stats, nontrivial = oracle(cases, impl)
     return mism, cnt, cases, impl, fails, hist, stats, nontrivial
 
@@ -484,7 +503,7 @@ def run(ctx):
     runs = []
     if ctx.replay:
         rp = json.load(open(ctx.replay))
-        rc = os.path.join(ctx.run_dir, "replay_cases.tsv")
+        rc = os.path.join(ctx.run_dir, "replay_cases.%d.tsv" % os.getpid())
         with open(rc, "w") as f:
             for line in (rp.get("case") or {}).get("cases_tsv", []) or rp.get("cases_tsv", []):
                 f.write(line + "\n")
@@ -492,7 +511,7 @@ def run(ctx):
     else:
         corpus = sorted(glob.glob(os.path.join(vlib.VERIF, "corpus", "C05", "*.tsv")))
         if corpus:
-            cc = os.path.join(ctx.run_dir, "corpus_cases.tsv")
+            cc = os.path.join(ctx.run_dir, "corpus_cases.%d.tsv" % os.getpid())
             with open(cc, "w") as f:
                 for i, p in enumerate(corpus):
                     for line in open(p):
@@ -502,9 +521,11 @@ def run(ctx):
                             f.write("c%d." % i + line + "\n")
             runs.append(("corpus", "-replay %s" % cc))
         if quick:
-            runs.append(("fresh", "-seed %d -n 12 -img 30 -exhaustive 1 -scen 12 -ndec 300" % ctx.seed))
+            runs.append(("fresh", "-seed %d -n 12 -img 30 -exhaustive 1 -scen 12 -conc 30 -ndec 300" % ctx.seed))
+            runs.append(("mega", "-seed %d -n 0 -img 0 -ndec 0 -mega 1" % ctx.seed))
         else:
-            runs.append(("fresh", "-seed %d -n 80 -img 120 -exhaustive 8 -big 2 -scen 80 -ndec 4000" % ctx.seed))
+            runs.append(("fresh", "-seed %d -n 80 -img 120 -exhaustive 8 -big 2 -scen 80 -mega 1 -megak 0 -conc 300 -ndec 4000" % ctx.seed))
+            runs.append(("mega", "-seed %d -n 0 -img 0 -ndec 0 -mega 6" % ctx.seed))
 
     all_mism, all_fail, total = [], [], 0
     hist_all, stats_all, nontriv, samples = {}, {}, set(), []
@@ -513,7 +534,7 @@ def run(ctx):
         if d is None:
             log("HARNESS/MODEL RUN FAILED (%s):\n%s" % (sub, err[-3000:]))
             raise SystemExit(2)
-        mism, cnt, cases, impl, fails, hist, stats, nt = judge(d)
+        mism, cnt, cases, impl, fails, hist, stats, nt = judge(d, diff=sub not in ORACLE_ONLY)
         cmap = dict(cases)
         hline = {}
         last_h = None
@@ -564,6 +585,12 @@ def run(ctx):
             unknown.append(f)
     known_count = len(all_fail) - len(unknown)
     all_fail = unknown
+    if not all_mism and not all_fail:
+        # nothing to look at afterwards: the case files of a thorough run are tens of MB
+        for sub, _ in runs:
+            shutil.rmtree(os.path.join(ctx.run_dir, "%s.%d" % (sub, os.getpid())), ignore_errors=True)
+        for f in glob.glob(os.path.join(ctx.run_dir, "*_cases.%d.tsv" % os.getpid())):
+            os.remove(f)
     vlib.standard_verdict(ctx, proofs_ok, mm, all_fail, search_fn=search,
                           corr_name="Wal/Model.v vs wal.Create/Save/SaveSnapshot/cut (segment bytes) and "
                                     "ValidSnapshotEntries/Verify/Open+ReadAll/Repair on crash images")
@@ -581,6 +608,12 @@ def run(ctx):
              "Every accepted reopen of a non-bit-flip image is CONTINUED: the recovered wal must have an all-zero tail behind "
              "its last valid record, the lost live entries are saved again unchanged, a new entry and a hard-state-only "
              "Save follow, the wal is closed and reopened, judged against prefix + appended records. "
+             "Designed per run: one history with an entry just above the encoder's 1 MiB scratch buffer (1048577.. / 2097158 "
+             "bytes, all padding residues over the seeds; thorough: all 6), reopened undamaged at 0/L/its marker and cut "
+             "once, judged by the direct oracle only (thorough: one 1048577-byte history also through the model); "
+             "a concurrent leg (K lines, Go only; the model's line is the statement 'a clean Close loses nothing'): 3 x "
+             "(80-110 KB of commit-only hard states left in the page writer, then WAL.Sync() racing with one more Save), "
+             "Close, reopen: last hard state and the number of state records in the files must be exact. "
              "Non-trivial = a damaged image (T/X/Z/B) whose reopen returned data, distinct by hash of history+image.",
         histogram=hist_all,
         reopen_stats=stats_all,
